@@ -5,6 +5,13 @@ def fsm(run, name="main", **kw):
     d.update(kw)
     return d
 
+def real(run, name="realtcp", **kw):
+    d = {"name": name, "pkg": "real", "run": run, "shards": 1, "gomaxprocs": 8}
+    d.update(kw)
+    return d
+
+ENGINE_R = ["pass realtcp (Engine R): corebgp on real loopback TCP sockets in real time, real dialer/listener, no dial hook; only positive observations are violations, every timeout is inconclusive"]
+
 def codec(run, name="main", **kw):
     d = {"name": name, "pkg": "codec", "run": run, "gomaxprocs": 2}
     d.update(kw)
@@ -18,8 +25,8 @@ ENGINE_V = ["corebgp runs unmodified inside a testing/synctest bubble on in-memo
 SPECS = {
  "C09": {
   "level": "fault_enumeration",
-  "passes": [fsm("^TestC09$")],
-  "rule": "family table: every (direction in/out, state OpenSent/OpenConfirm/Established, stimulus OPEN/UPDATE/KEEPALIVE/FIN/RST) cell, "
+  "passes": [fsm("^TestC09$"), real("^TestRealReactions$")],
+  "rule": "[also pass realtcp: the (direction,state,stimulus) table once (quick) / 10x (thorough) on real sockets incl. real FIN] family table: every (direction in/out, state OpenSent/OpenConfirm/Established, stimulus OPEN/UPDATE/KEEPALIVE/FIN/RST) cell, "
           "each with several seeded stream segmentations and seeded virtual delays at the FSM schedule points; family notif: received "
           "NOTIFICATION (code, subcode, data length) values (quick: every subcode of codes 0-6 plus random pairs; thorough: all 65536 pairs twice) "
           "at a seeded state/direction. A case is non-trivial when the connection reached the target state; distinct = distinct "
@@ -108,8 +115,8 @@ SPECS = {
 
  "C08": {
   "level": "fault_enumeration",
-  "passes": [fsm("^TestC08$")],
-  "rule": "family hdr: faulty 19-byte headers = {every length (quick: 0..64, 4077..4115, boundary and 250 random values; thorough: all 65536) x types {1,2,3,4,0,5,6,255} minus fault-free combinations} + {16 marker positions x {00,7f,fe} x 5 length/type combinations} "
+  "passes": [fsm("^TestC08$"), real("^TestRealHeaders$")],
+  "rule": "[also pass realtcp: bad marker / length / type in each state on real sockets] family hdr: faulty 19-byte headers = {every length (quick: 0..64, 4077..4115, boundary and 250 random values; thorough: all 65536) x types {1,2,3,4,0,5,6,255} minus fault-free combinations} + {16 marker positions x {00,7f,fe} x 5 length/type combinations} "
           "+ {all 252 unknown types at lengths 19 and 23}; each header is delivered in OpenSent, OpenConfirm and Established (inbound or outbound), preceded by 0-3 well-formed messages that must take effect and followed by a message that must not, "
           "with a seeded segmentation (incl. cuts inside the faulty header). Oracle: exactly one NOTIFICATION prescribed for a fault present in the header (precedence between simultaneous faults not prescribed), then close; callbacks/UPDATE deliveries = prefix only. "
           "family fidelity: plugin-returned NOTIFICATIONs (quick: every subcode of codes 0-6 + random; thorough: all 65536 (code,subcode) pairs twice) x data lengths {0,1,2,3,255,256,4075} from OnOpenMessage and from the update handler, compared byte for byte with the wire. "
@@ -142,8 +149,8 @@ SPECS = {
 
  "C06": {
   "level": "exploration",
-  "passes": [fsm("^TestC06$")],
-  "rule": "family grid: local hold x remote hold over {0,3,4,9,10,30,90,65535}^2 x remote traffic {silent, KEEPALIVE-only at H-10ms, UPDATE-only at H-10ms, mixed random intervals < H, silent in OpenConfirm} x direction, with local WriteUpdate patterns "
+  "passes": [fsm("^TestC06$"), real("^TestRealTimers$")],
+  "rule": "[also pass realtcp: hold-timer lower bound (3 s) and refused-dial pacing (200 ms) in real time] family grid: local hold x remote hold over {0,3,4,9,10,30,90,65535}^2 x remote traffic {silent, KEEPALIVE-only at H-10ms, UPDATE-only at H-10ms, mixed random intervals < H, silent in OpenConfirm} x direction, with local WriteUpdate patterns "
           "{none, burst, periodic at H/3-10ms} rotated over the cells (640 sessions, enumerated every run); family multi: worlds of 1-3 consecutive sessions on one peer with independently drawn remote hold times/traffic (the outbound FSM object is reused, "
           "so stale timer state of an earlier session is exercised; thorough adds random hold values 3..65535). All oracles are arithmetic on virtual timestamps taken at the remote (send time of its last message, arrival of corebgp's messages): "
           "OPEN hold field = configured; expiry NOTIFICATION(4) never before last-remote-message + min(local,remote) and not later than that + 5 ms; no teardown while the remote sends every H-10ms; gaps between consecutive messages from corebgp <= H/3 + 5 ms; "
@@ -154,8 +161,8 @@ SPECS = {
 
  "C07": {
   "level": "exploration",
-  "passes": [fsm("^TestC07$")],
-  "rule": "grid: 6 dominance configurations (local id <, >, = remote id x local AS <, > remote AS) x modes {ordered (quiescence barrier between the two OPENs), simul (both OPENs at one virtual instant), estfirst (one connection Established while the other is in OpenSent), "
+  "passes": [fsm("^TestC07$"), real("^TestRealCollision$")],
+  "rule": "[also pass realtcp: ordered collisions on real sockets, both dominance configurations x both orders] grid: 6 dominance configurations (local id <, >, = remote id x local AS <, > remote AS) x modes {ordered (quiescence barrier between the two OPENs), simul (both OPENs at one virtual instant), estfirst (one connection Established while the other is in OpenSent), "
           "race-est / race-ka (the first connection's KEEPALIVE at the same instant as the second's OPEN), race-close, race-bad (victim closes / sends a bad header at that instant)} x which connection gets its OPEN first x whether the inbound connection arrives before the dial completes "
           "x 24 (quick) / 1200 (thorough) seeds of virtual delays at the FSM, peer-manager and collision-select schedule points. Oracle: ordered/simul/estfirst demand the RFC 4271 6.8 survivor exactly; race modes demand at most one survivor; always: a single Cease then close on the loser, "
           "survivor saw exactly OPEN KEEPALIVE, establishes on KEEPALIVE, delivers a subsequent UPDATE, and a further inbound connection is refused silently. evidence.events lists the observed outcome per mode. distinct = distinct (configuration, mode, order, outcome, transition/callback trace).",
@@ -188,8 +195,8 @@ SPECS = {
 
  "C13": {
   "level": "exploration",
-  "passes": [fsm("^TestC13$")],
-  "rule": "one case = one world with 1-4 configured peers drawn from {10.0.1.1, 10.0.1.2, 2001:db8::1, 2001:db8::2}, each with or without a local address (two candidates per family), passive or active, and brought into one of 8 states "
+  "passes": [fsm("^TestC13$"), real("^TestRealAdmission$")],
+  "rule": "[also pass realtcp: real listeners 127.0.0.1, 0.0.0.0, [::1], [::] (dual stack) x sources 127.0.7.2, 127.0.7.3, ::1 x local address unset/matching/other x configured/unconfigured: ground truth for address string formats] one case = one world with 1-4 configured peers drawn from {10.0.1.1, 10.0.1.2, 2001:db8::1, 2001:db8::2}, each with or without a local address (two candidates per family), passive or active, and brought into one of 8 states "
           "{idle, inbound in OpenSent, inbound in OpenConfirm, Established inbound, Established outbound, outbound in OpenSent, held down after a protocol error, deleted}; then every (source, destination) pair of a 7 x 4 address lattice "
           "(configured, unconfigured and the server's own addresses, both families) is connected in turn. Oracle = reference admission predicate (Appendix A.7): served connections get an OPEN; refused ones get zero bytes, are closed, trigger no callback; "
           "Established sessions still deliver an UPDATE afterwards. The first 24 cases enumerate every state x local-address kind. distinct = distinct (peer set, trace).",
@@ -198,8 +205,8 @@ SPECS = {
 
  "C10": {
   "level": "fault_enumeration",
-  "passes": [fsm("^TestC10$", name="stops"), fsm("^TestC10Race$", name="race", race=True, gomaxprocs=4)],
-  "rule": "pass stops: 14 connection scripts (inbound passive/active, outbound, outbound with slow dial, ordered and simultaneous collision, refused dials, stalled dial incl. connect-retry redial, damped peer incl. end of hold-down, active WriteUpdate callers inbound/outbound, "
+  "passes": [fsm("^TestC10$", name="stops"), fsm("^TestC10Race$", name="race", race=True, gomaxprocs=4), real("^TestRealShutdown$")],
+  "rule": "[also pass realtcp: Server.Close 0..20 ms after Serve with a real remote listener accepting the dial: every accepted connection must see EOF/RST and the process's socket fd count must return to its baseline] pass stops: 14 connection scripts (inbound passive/active, outbound, outbound with slow dial, ordered and simultaneous collision, refused dials, stalled dial incl. connect-retry redial, damped peer incl. end of hold-down, active WriteUpdate callers inbound/outbound, "
           "Active state after an OpenSent TCP failure, remote-closed session, hold-time-0 session). family quiesced: Close and DeletePeer after every step of every script (settled), several seeds of schedule-point delays, with exact expectations incl. Cease on every open connection whose approved state was OpenSent/OpenConfirm/Established; "
           "family sweep: a dry run records every virtual instant at which anything happened (20 ns fixed delay between dial completion and result hand-off, seeded delays elsewhere); the script is replayed with the stop issued concurrently at each instant t, t+1 ns, t+2..41 ns and a seeded offset < 2 us. "
           "Oracles: stop returns within 1 ms of virtual time (no dependence on protocol timers), Serve returns ErrServerClosed, every connection of the peer closed on corebgp's side at return (accountant), OnClose delivered for an Established session, no callback afterwards (sealed plugin automaton), "
@@ -211,8 +218,8 @@ SPECS = {
 
  "C01": {
   "level": "exploration",
-  "passes": [fsm("^TestC01$")],
-  "rule": "one case = one seeded adversarial world: 1-3 peers (passive/active, hold 0/3/9/90, idle-hold 1ms..5s, local or remote dominant), outbound dials refused/stalled/accepted (with latency), inbound connections arriving concurrently (some with 1-5 byte reads or injected read/write errors), "
+  "passes": [fsm("^TestC01$"), real("^TestRealSessions$")],
+  "rule": "[also pass realtcp: real loopback sessions in both directions with 1-byte writes, 4 concurrent writers, Close] one case = one seeded adversarial world: 1-3 peers (passive/active, hold 0/3/9/90, idle-hold 1ms..5s, local or remote dominant), outbound dials refused/stalled/accepted (with latency), inbound connections arriving concurrently (some with 1-5 byte reads or injected read/write errors), "
           "every connection driven by a random remote script over {valid OPEN, invalid OPEN, KEEPALIVE, UPDATE(conn,idx), Cease, other NOTIFICATION, garbage, half message, close, RST, pauses from 0 to 10 virtual seconds}, 60% of them completing a handshake first; meanwhile AddPeer/DeletePeer and finally Close. "
           "Even cases: seeded virtual delays at all schedule points, registry calls by the director only; odd cases: runtime.Gosched bursts at schedule points, one concurrent API actor per peer plus ungated arrivals. "
           "Oracle: online plugin automaton per peer (alternation, no overlap, handler only between OnEstablished return and OnClose, exactly one OnClose by Close/DeletePeer return, nothing afterwards) + offline join: every OPEN on the wire carries a nonce issued by exactly one earlier GetCapabilities call of that peer, "
